@@ -61,6 +61,36 @@ def check(repo: Repo, rep: Report) -> None:
     rep.rule("Y4-delegation", "timer tick counting; repeat_value / interval delegations", floor=4)
     from .typestate_common import rule_scheduler_forwarded
     from ..model import model_of
+    rep.rule("K1-signature", "typestate signature of every emitting action of the source factories equals the confirmed reference", floor=12)
+    from . import typestate_common as TC_
+    for key_ in ("empty.py::empty_.subscribe", "fromiterable.py::from_iterable_.subscribe", "generate.py::generate_.subscribe",
+                 "generatewithrelativetime.py::generate_with_relative_time_.subscribe", "range.py::range_.subscribe",
+                 "returnvalue.py::from_callable_.subscribe", "returnvalue.py::return_value_.subscribe", "throw.py::throw_.subscribe",
+                 "timer.py::observable_timer_date.subscribe", "timer.py::observable_timer_duetime_and_period.subscribe",
+                 "timer.py::observable_timer_timespan.subscribe", "timer.py::observable_timer_timespan_and_period.subscribe"):
+        TC_.check_operator(repo, rep, "K1-signature", O + key_,
+                           lambda k, slot: "A source factory emits exactly its specified notifications: elements, then one terminal notification, "
+                                           "and nothing after an error it reported.")
+    rep.rule("Y6-emit-before-reschedule", "an emitting action hands its element downstream before it schedules its own next step", floor=2)
+    from ..model import is_schedule_call as _isc_
+    for rel_ in ("range.py", "generate.py", "generatewithrelativetime.py", "repeat.py", "timer.py"):
+        mod_ = repo.opt_module(O + rel_)
+        if mod_ is None:
+            continue
+        for g_ in mod_.root.walk():
+            if not g_.is_func:
+                continue
+            ss_ = list(sites(g_))
+            nxt = [x for x in ss_ if isinstance(x.node, ast.Call) and isinstance(x.node.func, ast.Attribute) and x.node.func.attr == "on_next"
+                   and isinstance(x.node.func.value, ast.Name) and g_.owner(x.node.func.value.id) is not None and x.node.func.value.id == (g_.owner(x.node.func.value.id).params or [None])[0]]
+            resched = [x for x in ss_ if _isc_(x.node) and any(isinstance(a, ast.Name) and a.id == g_.name for a in list(x.node.args) + [k.value for k in x.node.keywords])]
+            for r_ in resched:
+                same = [x for x in nxt if x.ctx.branch == r_.ctx.branch[:len(x.ctx.branch)] or r_.ctx.branch == x.ctx.branch[:len(r_.ctx.branch)]]
+                if not same:
+                    continue
+                rep.ob("Y6-emit-before-reschedule", g_, f"{g_.qual}: `{short(same[0].node, 40)}` before `{short(r_.node, 50)}`", all(x.index < r_.index for x in same),
+                       f"{g_.qual} schedules its next step before it has emitted the current element: on a scheduler that runs the step "
+                       f"inline (ImmediateScheduler) the later elements are delivered first — the sequence comes out in reverse / nested order")
     rep.rule("Y5-scheduler-choice", "source factories: the explicitly given scheduler wins over the subscribe-time one, which wins over the default", floor=5)
     m_ = model_of(repo)
     for rel_ in ("returnvalue.py", "empty.py", "throw.py", "timer.py", "range.py", "fromiterable.py", "generate.py", "generatewithrelativetime.py", "repeat.py", "interval.py"):
